@@ -1,5 +1,6 @@
 import MpireModel.Model.Protocol
 import MpireModel.Proofs.Protocol
+import MpireModel.Proofs.Refine
 /-!
 # C02 — every task is executed exactly once
 
@@ -39,6 +40,23 @@ theorem one_chunk_one_queue (s s' : Sys) (w : Nat) (ids : List Tid) (h : step s 
     (∃ sl, s.slots[w]? = some sl ∧ s'.slots[w]? = some { sl with queue := sl.queue ++ [ids] }) ∧
     s.pending = ids :: s'.pending :=
   Mpire.Proofs.dispatch_one_queue s s' w ids h
+
+/-- **The worker transducer refines the protocol** (layers fit together): in a successful call an instance processes a
+prefix of the chunks in its queue, each completely and in order — one result batch per chunk with exactly that chunk's
+tasks … -/
+theorem worker_processes_prefix (p : Mpire.Worker.Params) (env : Mpire.Worker.Env) (items : List Mpire.Worker.Item)
+    (hok : Mpire.Worker.allOk items = true) (henv : Mpire.Proofs.Worker.okEnv env)
+    (hj : Mpire.Proofs.Worker.noExitJob items = true) :
+    ∃ k, Mpire.Proofs.Refine.batches (Mpire.Worker.run p env items) = (Mpire.Proofs.Refine.chunkIds items).take k ∧
+         Mpire.Worker.taskIds (Mpire.Worker.run p env items) = ((Mpire.Proofs.Refine.chunkIds items).take k).flatten :=
+  Mpire.Proofs.Refine.worker_processes_prefix p env items hok henv hj
+
+/-- … and exactly that behaviour (`pop ; exec* ; send` per chunk) is accepted by `step` on the instance's slot. -/
+theorem slot_events_accepted (n w : Nat) (cs rest : List (List Nat)) (hne : ∀ c ∈ cs, c ≠ []) (s : Sys)
+    (sl : Slot) (hs : s.slots[w]? = some sl) (hq : sl.queue = cs ++ rest) (hh : sl.hand = []) (hb : sl.buf = []) :
+    ∃ s', run s (Mpire.Proofs.Refine.slotEvents w cs) = some s' ∧
+      s'.slots[w]? = some { sl with queue := rest } ∧ s'.rq = s.rq ++ cs ∧ s'.log = s.log ++ cs.flatten :=
+  Mpire.Proofs.Refine.slot_events_accepted n w cs rest hne s sl hs hq hh hb
 
 /-! Non-vacuity: a concrete run with a restart reaches a quiescent success state. -/
 example : (run (init 2 [[0, 1], [2]])
